@@ -25,6 +25,13 @@ type jwsCase struct {
 	JWK  map[string]string `json:"jwk,omitempty"`
 	Sig  string            `json:"sig,omitempty"`
 	Msg  string            `json:"msg,omitempty"`
+	// seq: the cases are executed one after the other in the same process; the reply lists their outcomes
+	Seq []jwsCase `json:"seq,omitempty"`
+	// sign-twice: one library signer object for the key (KeyType, KeySeed) signs Msg, then Msg2; both raw signatures are
+	// verified afterwards with VerifySignature
+	KeyType string `json:"key_type,omitempty"`
+	KeySeed string `json:"key_seed,omitempty"`
+	Msg2    string `json:"msg2,omitempty"`
 }
 
 func jwsCall(p []byte) (reply []byte) {
@@ -36,6 +43,46 @@ func jwsCall(p []byte) (reply []byte) {
 	var c jwsCase
 	if err := json.Unmarshal(p, &c); err != nil {
 		return []byte("SKIP:" + err.Error())
+	}
+	if c.Kind == "seq" {
+		var outcomes []string
+		for _, sc := range c.Seq {
+			b, _ := json.Marshal(sc)
+			r := string(jwsCall(b))
+			if strings.HasPrefix(r, "PANIC:") {
+				return []byte(r)
+			}
+			outcomes = append(outcomes, r[:strings.IndexByte(r, ':')])
+		}
+		return []byte("OK:" + strings.Join(outcomes, ","))
+	}
+	if c.Kind == "sign-twice" {
+		seed, _ := ref.UnB64(c.KeySeed)
+		k := ref.NewKey(c.KeyType, "st", seed)
+		signer := libSigner(k, "")
+		m1, _ := ref.UnB64(c.Msg)
+		m2, _ := ref.UnB64(c.Msg2)
+		s1, err1 := signer.Sign(m1)
+		s1copy := append([]byte{}, s1...)
+		s2, err2 := signer.Sign(m2)
+		if err1 != nil || err2 != nil {
+			return []byte(fmt.Sprintf("ERR:sign failed: %v %v", err1, err2))
+		}
+		kj := jwkStrings(k)
+		pub := &jws.JWK{Kty: kj["kty"], Crv: kj["crv"], X: kj["x"], Y: kj["y"]}
+		if string(s1) != string(s1copy) {
+			return []byte("ERR:the first signature returned by Sign was overwritten by the second Sign call on the same signer")
+		}
+		if e := verifhooks.VerifySignature(pub, s1, m1); e != nil {
+			return []byte("ERR:first signature does not verify after a second Sign call: " + e.Error())
+		}
+		if e := verifhooks.VerifySignature(pub, s2, m2); e != nil {
+			return []byte("ERR:second signature of the same signer object does not verify: " + e.Error())
+		}
+		if e := verifhooks.VerifySignature(pub, s1, m2); e == nil {
+			return []byte("ERR:first signature verifies for the second message")
+		}
+		return []byte("OK:")
 	}
 	jwk := &jws.JWK{Kty: c.JWK["kty"], Crv: c.JWK["crv"], X: c.JWK["x"], Y: c.JWK["y"]}
 	var err error
@@ -74,7 +121,7 @@ func cloneJWK(m map[string]string) map[string]string {
 }
 
 func checkC09(c *hx.Ctx) {
-	c.Rule("for each of the five key types: genuine compact JWS built independently (harness/ref) and by the library's SignPayload, headers {alg}, {alg,kid} and - signed by the library - {alg[,kid],b64:true|false}, several payload sizes; oracle (constructive): verifies under its key; every single-byte alteration (2 bit patterns) of the decoded protected header that changes its value or breaks it, every byte of the payload, every byte of the signature, truncations/extensions/empty/swapped/zeroed r or s, and every pairing with every other key of the universe must be rejected (the ECDSA twin (r,n-s) is counted, not judged); malformed JWKs (missing/unknown kty or crv, coordinate length +-1, off-curve point, wrong Ed25519 size), headers without alg or with non-boolean b64, and structured-random compact strings must yield an error and never a panic; executed through the verif-tagged re-export of internal/jws in crash-isolated workers; non-trivial = altered or malformed input; distinct = distinct (jws, jwk) inputs")
+	c.Rule("for each of the five key types: genuine compact JWS built independently (harness/ref) and by the library's SignPayload, headers {alg}, {alg,kid} and - signed by the library - {alg[,kid],b64:true|false}, several payload sizes; oracle (constructive): verifies under its key; every single-byte alteration (2 bit patterns) of the decoded protected header that changes its value or breaks it, every byte of the payload, every byte of the signature, truncations/extensions/empty/swapped/zeroed r or s, every pairing with every other key of the universe, and JWKs made of the genuine characters split at another member boundary (verified in one process right after and right before the genuine JWK) must be rejected; a library signer object that signs twice must leave its first signature intact and valid (the ECDSA twin (r,n-s) is counted, not judged); malformed JWKs (missing/unknown kty or crv, coordinate length +-1, off-curve point, wrong Ed25519 size), headers without alg or with non-boolean b64, and structured-random compact strings must yield an error and never a panic; executed through the verif-tagged re-export of internal/jws in crash-isolated workers; non-trivial = altered or malformed input; distinct = distinct (jws, jwk) inputs")
 	c.Assume("Go crypto and btcec are trusted; a header edit counts as an alteration only if the header value changes or stops parsing (DESIGN Appendix B)")
 	pool := hx.NewPool(c, "jws", 16, 4*1024*1024, 30*time.Second)
 	defer pool.Close()
@@ -169,6 +216,21 @@ func checkC09(c *hx.Ctx) {
 					}
 				}
 			}
+		}
+	}
+	// one signer object signing twice: the first signature stays valid and unchanged
+	for _, t := range ref.KeyTypes {
+		for k := 0; k < 3; k++ {
+			c.Eval()
+			st, msg, ok := call(jwsCase{Kind: "sign-twice", KeyType: t, KeySeed: ref.B64(rng.Bytes(32)), Msg: ref.B64(rng.Bytes(20 + 10*k)), Msg2: ref.B64(rng.Bytes(33))})
+			if !ok {
+				return
+			}
+			if st != "OK" {
+				c.Violation("C09 signer object used twice ("+t+"): "+msg, map[string]interface{}{"key_type": t})
+				return
+			}
+			c.Count("signer_used_twice:" + t)
 		}
 	}
 	c.Sample(2, map[string]interface{}{"genuine_jws": gens[0].jws, "jwk": jwkStrings(gens[0].key)})
@@ -284,6 +346,41 @@ func checkC09(c *hx.Ctx) {
 		}
 		if !mustReject("verifysig-other-message:"+kt, jwsCase{Kind: "verifysig", JWK: jwk, Sig: s, Msg: ref.B64([]byte(signingInput + "x"))}) {
 			return
+		}
+		// ---- JWKs whose members are the genuine ones with a moved boundary (same characters, other split), verified in
+		// the same process right after / right before the genuine JWK (nothing may be remembered between verifications)
+		if g.by == "ref" && len(g.payload) < 40 {
+			var resplit []map[string]string
+			x, y := jwk["x"], jwk["y"]
+			if y != "" {
+				resplit = append(resplit, map[string]string{"kty": jwk["kty"], "crv": jwk["crv"], "x": x + y[:1], "y": y[1:]},
+					map[string]string{"kty": jwk["kty"], "crv": jwk["crv"], "x": x[:len(x)-1], "y": x[len(x)-1:] + y})
+			} else {
+				resplit = append(resplit, map[string]string{"kty": jwk["kty"], "crv": jwk["crv"], "x": x[:40], "y": x[40:]},
+					map[string]string{"kty": jwk["kty"], "crv": jwk["crv"] + x[:1], "x": x[1:]},
+					map[string]string{"kty": jwk["kty"] + jwk["crv"][:1], "crv": jwk["crv"][1:], "x": x})
+			}
+			gen := jwsCase{Kind: "verify", JWS: g.jws, JWK: jwk}
+			for ri, rj := range resplit {
+				bad := jwsCase{Kind: "verify", JWS: g.jws, JWK: rj}
+				for _, plan := range []struct {
+					seq  []jwsCase
+					want string
+				}{{[]jwsCase{gen, bad, gen}, "OK,ERR,OK"}, {[]jwsCase{bad, gen, bad}, "ERR,OK,ERR"}} {
+					c.Eval()
+					st, msg, ok := call(jwsCase{Kind: "seq", Seq: plan.seq})
+					if !ok {
+						return
+					}
+					if st != "OK" || msg != plan.want {
+						c.Violation(fmt.Sprintf("C09 a sequence of verifications in one process gave %s, expected %s (genuine JWK / JWK with the same characters split differently, variant %d, %s)", msg, plan.want, ri, kt),
+							map[string]interface{}{"sequence": plan.seq, "outcomes": msg})
+						return
+					}
+					c.Count("resplit_jwk_sequences")
+					c.Distinct(fmt.Sprintf("seq|%s|%d|%s", kt, ri, plan.want))
+				}
+			}
 		}
 		// ---- every other key
 		for _, o := range universe {
@@ -464,12 +561,14 @@ func checkC09(c *hx.Ctx) {
 	c.Set("worker_crashes", pool.Crashes)
 	for _, t := range ref.KeyTypes {
 		c.Floor("accepted:genuine:ref:"+t, 4)
+		c.Floor("signer_used_twice:"+t, 3)
 		c.Floor("accepted:genuine:library:"+t, 2)
 		c.Floor("rejected:header-byte:"+t, 50)
 		c.Floor("rejected:payload-byte:"+t, 50)
 		c.Floor("rejected:signature-byte:"+t, 100)
 	}
 	c.Floor("random_ERR", 10000)
+	c.Floor("resplit_jwk_sequences", 20)
 }
 
 func fixedBytes(b *big.Int, size int) []byte {
